@@ -52,6 +52,10 @@ pub trait Observer: Send + Sync {
     fn cv_wait(&self, _cv: usize) -> Option<bool> {
         None
     }
+    /// Like `cv_wait` for a wait that cannot time out (only a notification ends it).
+    fn cv_wait_forever(&self, _cv: usize) -> Option<()> {
+        None
+    }
 }
 
 static OBSERVER: ss::RwLock<Option<Arc<dyn Observer>>> = ss::RwLock::new(None);
@@ -116,6 +120,47 @@ impl<T> Mutex<T> {
                 m: self,
             })),
         }
+    }
+}
+
+impl<T> Mutex<T> {
+    pub fn try_lock(&self) -> ss::TryLockResult<MutexGuard<'_, T>> {
+        let label = std::any::type_name::<T>();
+        match self.inner.try_lock() {
+            Ok(g) => {
+                emit(Op::Lock, label, self.id, false, 1);
+                Ok(MutexGuard {
+                    g: Some(g),
+                    m: self,
+                })
+            }
+            Err(ss::TryLockError::WouldBlock) => Err(ss::TryLockError::WouldBlock),
+            Err(ss::TryLockError::Poisoned(p)) => {
+                emit(Op::Lock, label, self.id, false, 1);
+                Err(ss::TryLockError::Poisoned(PoisonError::new(MutexGuard {
+                    g: Some(p.into_inner()),
+                    m: self,
+                })))
+            }
+        }
+    }
+
+    pub fn into_inner(self) -> LockResult<T> {
+        self.inner.into_inner()
+    }
+
+    pub fn get_mut(&mut self) -> LockResult<&mut T> {
+        self.inner.get_mut()
+    }
+
+    pub fn is_poisoned(&self) -> bool {
+        self.inner.is_poisoned()
+    }
+}
+
+impl<T: Default> Default for Mutex<T> {
+    fn default() -> Self {
+        Self::new(T::default())
     }
 }
 
@@ -265,6 +310,12 @@ impl WaitTimeoutResult {
     }
 }
 
+impl Default for Condvar {
+    fn default() -> Self {
+        Self::new()
+    }
+}
+
 impl Condvar {
     pub fn new() -> Self {
         Self {
@@ -276,6 +327,72 @@ impl Condvar {
     pub fn notify_one(&self) {
         emit(Op::CvNotify, "condvar", self.id, true, 0);
         self.inner.notify_one();
+    }
+
+    pub fn notify_all(&self) {
+        emit(Op::CvNotify, "condvar", self.id, true, 1);
+        self.inner.notify_all();
+    }
+
+    /// `wait_timeout` = one round of `wait_timeout_while` whose condition holds exactly once.
+    pub fn wait_timeout<'a, T>(
+        &self,
+        guard: MutexGuard<'a, T>,
+        dur: Duration,
+    ) -> LockResult<(MutexGuard<'a, T>, WaitTimeoutResult)> {
+        let mut first = true;
+        match self.wait_timeout_while(guard, dur, |_| std::mem::replace(&mut first, false)) {
+            Ok((g, r)) => Ok((g, WaitTimeoutResult(r.0 || false))),
+            Err(p) => Err(p),
+        }
+    }
+
+    pub fn wait<'a, T>(&self, guard: MutexGuard<'a, T>) -> LockResult<MutexGuard<'a, T>> {
+        let mut first = true;
+        self.wait_while(guard, |_| std::mem::replace(&mut first, false))
+    }
+
+    pub fn wait_while<'a, T, F>(
+        &self,
+        mut guard: MutexGuard<'a, T>,
+        mut condition: F,
+    ) -> LockResult<MutexGuard<'a, T>>
+    where
+        F: FnMut(&mut T) -> bool,
+    {
+        let label = std::any::type_name::<T>();
+        let m = guard.m;
+        let controlled = observer().and_then(|o| if o.cv_wait(0).is_some() { Some(o) } else { None });
+        if let Some(o) = controlled {
+            loop {
+                if !condition(&mut *guard) {
+                    return Ok(guard);
+                }
+                drop(guard);
+                let _ = o.cv_wait_forever(self.id);
+                emit(Op::CvWait, label, self.id, false, 0);
+                guard = match m.lock() {
+                    Ok(g) => g,
+                    Err(p) => p.into_inner(),
+                };
+            }
+        }
+        let inner = guard.g.take().unwrap();
+        emit(Op::Unlock, label, m.id, false, 0);
+        emit(Op::CvWait, label, self.id, true, m.id);
+        let r = self.inner.wait_while(inner, condition);
+        let (g, poisoned) = match r {
+            Ok(g) => (g, false),
+            Err(p) => (p.into_inner(), true),
+        };
+        emit(Op::CvWait, label, self.id, false, 0);
+        emit(Op::Lock, label, m.id, false, 0);
+        let out = MutexGuard { g: Some(g), m };
+        if poisoned {
+            Err(PoisonError::new(out))
+        } else {
+            Ok(out)
+        }
     }
 
     pub fn wait_timeout_while<'a, T, F>(
@@ -342,7 +459,7 @@ impl Condvar {
 
 pub mod thread {
     use super::{emit, next_id, Op};
-    pub use std::thread::{panicking, sleep};
+    pub use std::thread::{current, panicking, park, park_timeout, sleep, yield_now, Thread, ThreadId};
 
     pub struct JoinHandle<T> {
         inner: std::thread::JoinHandle<T>,
@@ -372,6 +489,14 @@ pub mod thread {
     }
 
     impl<T> JoinHandle<T> {
+        pub fn is_finished(&self) -> bool {
+            self.inner.is_finished()
+        }
+
+        pub fn thread(&self) -> &std::thread::Thread {
+            self.inner.thread()
+        }
+
         pub fn join(self) -> std::thread::Result<T> {
             emit(Op::Join, "thread", self.id, true, 0);
             let r = self.inner.join();
